@@ -180,7 +180,7 @@ func genModule(dir string, r *rng.R, n int, mk func(i int) gen.Options) []genSpe
 	for i := 0; i < n; i++ {
 		o := mk(i)
 		o.Root = fmt.Sprintf("k%d", i)
-		specs = append(specs, genSpec{r.U64() % 1000000007, o})
+		specs = append(specs, genSpec{seed: r.U64() % 1000000007, o: o})
 	}
 	if _, err := writeModule(dir, specs); err != nil {
 		panic(err)
